@@ -2445,7 +2445,14 @@ def judge_xsess(case, obs, reps):
             if any(v == 0.0 or math.sin(v) == 0.0 or math.cos(v) == 0.0 or math.sin(v / 2) == 0.0
                    or math.cos(v / 2) == 0.0 for v in reads):
                 continue
-        if free is not None and sorted(mf["free"]) != free:
+        if free is not None and sorted(mf["free"]) != free and set(free) < set(mf["free"]):
+            # sympy also cancels symbols algebraically: BS.H with the phases e, e, -e, -e has every phase sum reduced to 0,
+            # so the real matrix has FEWER free symbols than the model's syntactic set although both denote the same
+            # function.  A strict subset is therefore not a disagreement by itself: the matrices are compared at the
+            # points below (direct oracle against the documented matrix, and against the model), which is what would
+            # expose a dependence that was really lost.
+            pass
+        elif free is not None and sorted(mf["free"]) != free:
             fails.append(("broken", "xsess-model-vs-code:free-symbols",
                           f"{label} {cid}: the symbolic matrix has the free symbols {free}, model {sorted(mf['free'])}"))
             return fails
